@@ -667,8 +667,7 @@ fn check_inner(line: &str, res: &str, t: &[&str], mut m: Vec<String>) -> Vec<Str
                     Err(_) => m.push("FAIL C07 Display to a sink panicked".into()),
                 }
             }
-            {
-                let second = Value::list(vec![Value::string("second \"attempt\""), Value::from(42), Value::keyword("k"), Value::from(vec![7u8, 8])]);
+            for second in [Value::list(vec![Value::string("second \"attempt\""), Value::from(42), Value::keyword("k"), Value::from(vec![7u8, 8])]), Value::symbol("bar"), Value::from(7)] {
                 let mut sk = mk();
                 let r = std::panic::catch_unwind(std::panic::AssertUnwindSafe(|| {
                     fn twice<W: std::io::Write, F: lexpr::print::Formatter>(mut pr: lexpr::Printer<W, F>, a: &Value, b: &Value) -> (bool, bool) {
